@@ -80,6 +80,38 @@ impl RelayConn {
     }
 }
 
+/// what the fake Junos server needs from a connection to the agent
+pub trait AgentConn {
+    fn send(&mut self, bytes: &[u8]) -> bool;
+    fn next_message(&mut self, timeout: Duration) -> Option<String>;
+    /// the server side goes away (cli closes its stdout and exits / TCP FIN without close_notify)
+    fn go_away(&mut self);
+}
+
+impl AgentConn for RelayConn {
+    fn send(&mut self, bytes: &[u8]) -> bool {
+        self.send_chunk(bytes)
+    }
+    fn next_message(&mut self, timeout: Duration) -> Option<String> {
+        self.read_message(timeout)
+    }
+    fn go_away(&mut self) {
+        _ = self.control(2);
+    }
+}
+
+impl AgentConn for crate::peers::TlsPeer {
+    fn send(&mut self, bytes: &[u8]) -> bool {
+        crate::peers::Peer::send_chunk(self, bytes)
+    }
+    fn next_message(&mut self, timeout: Duration) -> Option<String> {
+        crate::peers::Peer::read_message(self, timeout)
+    }
+    fn go_away(&mut self) {
+        crate::peers::Peer::close(self, crate::peers::CloseKind::Eof);
+    }
+}
+
 fn find(hay: &[u8], needle: &[u8]) -> Option<usize> {
     hay.windows(needle.len()).position(|w| w == needle)
 }
@@ -142,14 +174,14 @@ fn reply(id: &str, body: &str) -> String {
 const ERR: &str = "<rpc-error><error-type>protocol</error-type><error-tag>operation-failed</error-tag><error-severity>error</error-severity><error-message>injected failure</error-message></rpc-error>";
 
 #[allow(clippy::too_many_lines)]
-fn serve(listener: &UnixListener, scn: &Scenario) -> ServerOut {
+fn serve(accept: impl FnOnce() -> Option<Box<dyn AgentConn>>, scn: &Scenario) -> ServerOut {
     let mut out = ServerOut { raw: vec![], rpcs: vec![], acked: vec![], ephemeral: scn.ephemeral.clone(), commits: 0, note: String::new() };
-    let Some(mut conn) = RelayConn::accept(listener, Duration::from_secs(15)) else {
-        out.note = "the agent never started its cli stand-in".into();
+    let Some(mut conn) = accept() else {
+        out.note = "the agent never connected".into();
         return out;
     };
-    _ = conn.send_chunk(hello_msg(&[CAP_BASE_1_0, "urn:ietf:params:netconf:capability:candidate:1.0", CAP_JUNOS], "4711").as_bytes());
-    if conn.read_message(Duration::from_secs(10)).is_none() {
+    _ = conn.send(hello_msg(&[CAP_BASE_1_0, "urn:ietf:params:netconf:capability:candidate:1.0", CAP_JUNOS], "4711").as_bytes());
+    if conn.next_message(Duration::from_secs(10)).is_none() {
         out.note = "no client hello".into();
         return out;
     }
@@ -158,7 +190,7 @@ fn serve(listener: &UnixListener, scn: &Scenario) -> ServerOut {
     let mut loads_seen = 0usize;
     let mut last_ids: Vec<String> = Vec::new();
     loop {
-        let Some(msg) = conn.read_message(Duration::from_secs(10)) else { break };
+        let Some(msg) = conn.next_message(Duration::from_secs(10)) else { break };
         let doc = msg.strip_suffix(MARKER).unwrap_or(&msg);
         let Ok(rpc) = parse_xml(doc) else {
             out.note = format!("unparseable request: {doc}");
@@ -217,8 +249,8 @@ fn serve(listener: &UnixListener, scn: &Scenario) -> ServerOut {
                 _ => reply(&id, "<ok/>"),
             }
         };
-        let mut send = |conn: &mut RelayConn, text: String| {
-            _ = conn.send_chunk(text.as_bytes());
+        let mut send = |conn: &mut Box<dyn AgentConn>, text: String| {
+            _ = conn.send(text.as_bytes());
         };
         match fault {
             None => {
@@ -273,8 +305,7 @@ fn serve(listener: &UnixListener, scn: &Scenario) -> ServerOut {
             }
             Some(FaultKind::CloseBefore) => {
                 out.acked[idx] = None;
-                _ = conn.control(2);
-                conn.hangup();
+                conn.go_away();
                 out.note = "closed before reply".into();
                 break;
             }
@@ -283,9 +314,9 @@ fn serve(listener: &UnixListener, scn: &Scenario) -> ServerOut {
                 out.acked[idx] = Some(true);
                 send(&mut conn, r);
                 thread::sleep(Duration::from_millis(20));
-                _ = conn.control(2);
+                conn.go_away();
                 // keep reading what the agent still sends (nothing must be a commit)
-                while let Some(extra) = conn.read_message(Duration::from_millis(1500)) {
+                while let Some(extra) = conn.next_message(Duration::from_millis(1500)) {
                     if let Ok(rpc) = parse_xml(extra.strip_suffix(MARKER).unwrap_or(&extra)) {
                         if let Some(op) = rpc.children.first() {
                             out.rpcs.push(op.name.clone());
@@ -306,6 +337,11 @@ fn serve(listener: &UnixListener, scn: &Scenario) -> ServerOut {
 }
 
 pub fn run_agent(scn: &Scenario, irrd: &Irrd, tag: &str) -> RunRecord {
+    run_agent_on(scn, irrd, tag, None)
+}
+
+/// `tls`: run the agent with its `remote` target against this TLS listener instead of the stand-in cli
+pub fn run_agent_on(scn: &Scenario, irrd: &Irrd, tag: &str, tls: Option<&crate::peers::TlsServer>) -> RunRecord {
     let dir = root().join("run").join(format!("{}-{tag}", std::process::id()));
     _ = std::fs::create_dir_all(&dir);
     let sock = dir.join("cli.sock");
@@ -315,10 +351,20 @@ pub fn run_agent(scn: &Scenario, irrd: &Irrd, tag: &str) -> RunRecord {
     _ = irrd.take_log();
     let exe_dir: PathBuf = std::env::current_exe().expect("exe").parent().expect("dir").to_path_buf();
     let scn2 = scn.clone();
-    let server = thread::spawn(move || serve(&listener, &scn2));
     let stderr_path = dir.join("agent.stderr");
+    let mut remote_args: Vec<String> = Vec::new();
+    let pk = |n: &str| crate::peers::pki(n).display().to_string();
+    let server = if let Some(t) = tls {
+        t.drain();
+        remote_args = vec!["remote".into(), "--netconf-host".into(), "127.0.0.1".into(), "--netconf-port".into(), t.port.to_string(), "--ca-cert-path".into(), pk("ca.crt"), "--client-cert-path".into(), pk("client.crt"), "--client-key-path".into(), pk("client.key"), "--tls-server-name".into(), "localhost".into()];
+        let acceptor = t.acceptor();
+        thread::spawn(move || serve(move || acceptor.accept(Duration::from_secs(15)).map(|p| Box::new(p) as Box<dyn AgentConn>), &scn2))
+    } else {
+        thread::spawn(move || serve(move || RelayConn::accept(&listener, Duration::from_secs(15)).map(|c| Box::new(c) as Box<dyn AgentConn>), &scn2))
+    };
     let mut child = Command::new(exe_dir.join("vagent"))
         .args(["--frequency", "0", "--irrd-host", "127.0.0.1", "--irrd-port", &irrd.port.to_string(), "--ephemeral-db", scn.instance_name.as_deref().unwrap_or("bgpfu"), "-v"])
+        .args(&remote_args)
         .env("BGPFU_VERIF_CLI_PATH", exe_dir.join("vrelay"))
         .env("VERIF_RELAY_SOCKET", &sock)
         .env("NO_COLOR", "1")
@@ -350,6 +396,9 @@ pub fn run_agent(scn: &Scenario, irrd: &Irrd, tag: &str) -> RunRecord {
     }
     // unblock a server that is still waiting for the relay
     _ = UnixStream::connect(&sock);
+    if let Some(t) = tls {
+        _ = std::net::TcpStream::connect(("127.0.0.1", t.port));
+    }
     let out = server.join().unwrap_or_else(|_| ServerOut { raw: vec![], rpcs: vec![], acked: vec![], ephemeral: Instance::default(), commits: 0, note: "server thread panicked".into() });
     rec.raw_requests = out.raw;
     rec.rpcs = out.rpcs;
@@ -456,11 +505,55 @@ pub fn run_c04(report: &mut Report) {
             report.violation("C04:multiple-commits", "more than one commit in a run", case.clone());
         }
     }
+    // the same oracle with the agent's `remote` target: TLS to the fake Junos server
+    let tls = crate::peers::TlsServer::start();
+    let irrd = Irrd::start(model.db.clone());
+    let n = 1usize;
+    let base = Scenario { instance_name: None, running: policies(n), ephemeral: Instance::default(), fault: None, expected_loads: n, irr_plan: Plan::default() };
+    let expect: Vec<String> = ["open-configuration", "get-config", "get-config", "load-configuration", "commit-configuration", "close-configuration", "close-session"].iter().map(|s| (*s).to_string()).collect();
+    let rec = run_agent_on(&base, &irrd, "C04-tls-base", Some(&tls));
+    let mut tls_runs = 1u64;
+    if rec.rpcs != expect || rec.exit != Some(0) || rec.commits != 1 {
+        report.violation("C04:fault-free-run-unexpected:tls", &format!("fault-free run over TLS: requests {:?}, exit {:?}, commits {} (expected {:?}, exit 0, 1 commit); {}", rec.rpcs, rec.exit, rec.commits, expect, rec.stderr_tail), record_json(&base, &rec));
+    } else {
+        let kinds: &[FaultKind] = if thorough { &[FaultKind::RpcError, FaultKind::MixedSeverity, FaultKind::Malformed, FaultKind::UnknownId, FaultKind::CloseBefore, FaultKind::CloseAfter] } else { &[FaultKind::RpcError, FaultKind::CloseBefore, FaultKind::CloseAfter] };
+        for k in 0..expect.len() {
+            for &kind in kinds {
+                let scn = Scenario { fault: Some((k, kind)), ..base.clone() };
+                let rec = run_agent_on(&scn, &irrd, &format!("C04-tls-{k}"), Some(&tls));
+                tls_runs += 1;
+                _ = distinct.insert(format!("tls|{k}|{kind:?}"));
+                let step = &expect[k];
+                let key_tail = format!("{kind:?}:at-{step}:tls");
+                let case = record_json(&scn, &rec);
+                if rec.timed_out {
+                    report.violation(&format!("C04:run-does-not-terminate:{key_tail}"), &format!("{kind:?} at request {k} ({step}) over TLS: the agent did not terminate within 12 s"), case.clone());
+                }
+                let failing = if kind == FaultKind::CloseAfter { k + 1 } else { k };
+                if failing >= expect.len() {
+                    if rec.exit != Some(0) {
+                        report.violation("C04:successful-run-reported-as-failure:tls", &format!("every step was positively acknowledged but the run exited with {:?}", rec.exit), case.clone());
+                    }
+                    continue;
+                }
+                if rec.exit == Some(0) {
+                    report.violation(&format!("C04:failed-step-reported-as-success:{key_tail}"), &format!("{kind:?} at request {k} ({step}) over TLS: the run reported success"), case.clone());
+                }
+                for (c, _) in rec.rpcs.iter().enumerate().filter(|(_, r)| *r == "commit-configuration") {
+                    if !rec.acked[..c].iter().all(|a| *a == Some(true)) || failing < c {
+                        report.violation(&format!("C04:commit-after-failed-step:{key_tail}"), &format!("{kind:?} at request {k} ({step}) over TLS: commit-configuration requested after a step that was not positively acknowledged; requests {:?}", rec.rpcs), case.clone());
+                    }
+                }
+            }
+        }
+    }
+    evaluations += tls_runs;
+    report.set("agent_runs_over_tls", tls_runs);
     report.set("evaluations", evaluations);
     report.set("distinct_nontrivial", distinct.len() as u64);
     report.set("agent_runs", evaluations);
     report.set("exhaustive", true);
-    report.set("rule", "the real agent (one-shot, local target through the stand-in cli) against a fake Junos NETCONF server and a fake IRRd; N managed policies for N in the stated range; one fault per run at every position of the request sequence open, get-config x2, load x N, commit, close-configuration, close-session, of every kind {rpc-error, warning+error rpc-errors, malformed reply, reply with an unknown message-id, reply re-using an earlier message-id, connection close before the reply, close after the reply}, plus failing load replies delayed until every later load was received; distinct = (N, position, kind); oracle over (exit status, request list as seen by the server)");
+    report.set("rule", "the real agent (one-shot, local target through the stand-in cli; a slice with N = 1 also through the remote TLS target) against a fake Junos NETCONF server and a fake IRRd; N managed policies for N in the stated range; one fault per run at every position of the request sequence open, get-config x2, load x N, commit, close-configuration, close-session, of every kind {rpc-error, warning+error rpc-errors, malformed reply, reply with an unknown message-id, reply re-using an earlier message-id, connection close before the reply, close after the reply}, plus failing load replies delayed until every later load was received; distinct = (N, position, kind); oracle over (exit status, request list as seen by the server)");
     report.assume("the fake Junos answers as the repository's fixtures and the Junos XML protocol documentation describe");
 }
 
